@@ -95,6 +95,16 @@ func (m *MatchHTTP) Match(cx *layer4.Connection) (bool, error) {
 			return false, nil
 		}
 
+		// http.ReadRequest takes a header line that is cut off by the end of the prefetched
+		// data for a complete line (bufio.Reader.ReadLine drops the read error when it has
+		// partial data), so wait for the end of the header block before parsing
+		if !bytes.Contains(data, []byte("\n\r\n")) && !bytes.Contains(data, []byte("\n\n")) {
+			if len(data) >= layer4.MaxMatchingBytes {
+				return false, layer4.ErrMatchingBufferFull
+			}
+			return false, layer4.ErrConsumedAllPrefetchedBytes
+		}
+
 		// use bufio reader which exactly matches the size of prefetched data,
 		// to not trigger all bytes consumed error
 		bufReader := bufio.NewReaderSize(cx, len(data))
